@@ -49,9 +49,11 @@ LEVEL_TEXT = (
     "(trim_overlap_nd_id); for every function local within the per-axis depths (any g of the clipped window), mapping over "
     "the extended block and trimming gives cell by cell the function on the padded global array at the block's own "
     "cells pad + lo + c (map_overlap_nd_eq_global, globalIdx_is_block_offset). Validated, not proved: that boundaries() / "
-    "np.pad compute these index maps (diffed cell by cell), that ArrayOverlapLayer's 3^k-neighbour gather + "
-    "concatenate_shaped is the per-axis product (every block of 2-d / 3-d position-valued arrays diffed, section "
-    "ndblocks), rechunking (C23), map_overlap's argument handling (several arrays, drop_axis/new_axis, trim=False)."
+    "np.pad compute these index maps (diffed cell by cell), rechunking (C23), map_overlap's argument handling (several "
+    "arrays, drop_axis/new_axis, trim=False). The way ArrayOverlapLayer really builds a block — one concatenate_shaped "
+    "of up to 3^k pieces (_expand_keys_around_center x fractional_slice, diagonal neighbours for corners) — is modelled "
+    "piece by piece (ndPieces, assemble) and proved to be that product block (overlap_nd_gather, no size hypothesis); "
+    "every real piece of every block of 2-d / 3-d arrays is diffed against the model's (section ndblocks)."
 )
 LEVEL_NOTE = (
     "Trusted: Lean kernel; the hand-written model ArrOverlap (diffed on every run against the real helpers and against "
@@ -60,7 +62,7 @@ LEVEL_NOTE = (
 )
 TECHNIQUE = "Lean 4 proof (list surgery on blocks, loop invariant for ensure_minimum_chunksize) + differential correspondence with dask.array.overlap and NumPy"
 ASSUMPTIONS = [
-    "concatenate_shaped joins the neighbouring pieces in order along each axis; the N-d overlap is the per-axis product",
+    "concatenate_shaped places the piece at grid position (p1..pk) at the offsets given by the piece extents along each axis (modelled by `assemble`/`locate`; every extended block of 2-d / 3-d arrays diffed)",
     "np.pad(mode=wrap/symmetric/edge/constant) is the reference for boundary=periodic/reflect/nearest/<value>",
     "chunk.trim(x3, 2*d) on the overlapped padded array removes exactly the two overlapped pad blocks (checked block by block in section ovb)",
     "sorted(seq, key=k)[-1] is the element with the largest key (keys pairwise distinct): modelled as a running maximum",
